@@ -44,6 +44,33 @@ theorem C20_notify_stored (U : Universe) (hp : Passive U) (fuel : Nat) (t : TSt)
     obtain ⟨called, h1, h2, _⟩ := dispatch_passive hp fuel t.d f.event sv.show hdy hen hok
     exact ⟨called, h1, h2⟩
 
+/-- Whatever the listeners do from inside their callbacks (raise, add or remove listeners, switch
+notification off, dispatch again — `U` is arbitrary here, and so is the outcome of the assignment): the
+value is stored, the other two properties are untouched, and the dispatcher part of the result is
+exactly the dispatcher's own `dispatch` of the matching event with the stored value, so a listener
+that raised leaves nothing behind that `Disp.execOp` itself would not leave (C03/C04/C10 speak about
+that state). -/
+theorem C20_stored_whatever_listeners_do (U : Universe) (fuel : Nat) (t : TSt) (f : Field)
+    (v sv : Val) (hs : stored t.is3D f v = some sv) :
+    (setField U fuel t f v).1.read f = sv ∧
+    (∀ g, g ≠ f → (setField U fuel t f v).1.read g = t.read g) ∧
+    (setField U fuel t f v).1.d = (execOp U fuel t.d (.dispatch f.event sv.show)).1 ∧
+    (setField U fuel t f v).2 = (execOp U fuel t.d (.dispatch f.event sv.show)).2 := by
+  have hd : (t.write f sv).d = t.d := by cases f <;> rfl
+  refine ⟨?_, ?_, ?_, ?_⟩
+  · simp only [setField, hs]; cases f <;> rfl
+  · intro g hg
+    simp only [setField, hs]
+    cases f <;> cases g <;> first | rfl | exact absurd rfl hg
+  · simp only [setField, hs, hd]
+  · simp only [setField, hs, hd]
+
+/-- A rejected assignment (a vector as 2D rotation: `vector % 360.` is a TypeError) stores nothing and
+notifies nobody. -/
+theorem C20_rejected_noop (U : Universe) (fuel : Nat) (t : TSt) (f : Field) (v : Val)
+    (hs : stored t.is3D f v = none) : setField U fuel t f v = (t, .raised "TypeError") := by
+  simp only [setField, hs]
+
 /-- Values given at construction are stored the same way and nothing is notified. -/
 theorem C20_ctor (is3D : Bool) (held : List Obj) (pos rot scale : Option Val) (t : TSt)
     (h : construct is3D held pos rot scale = some t) :
